@@ -45,6 +45,14 @@ reg('C04', 'exploration', 'runtime monitor: invariant checks on outputs (canonic
     CV + 'Hygiene invariants are evaluated on every output of callVariant (and of callNovelORF / callAltTranslation once their monitors are built).',
     TB, 'DESIGN.md section 6 C04')
 
+reg('C13', 'exploration', 'runtime monitor: round-trip fixed-point oracle and pointer-vs-linear-scan model over generated GVF files; fault = edit after indexing',
+    'Real reader/writer/index code is run on generated GVF files of every record kind, split/shuffled across files, with and without .idx, with non-ASCII '
+    'bytes; write(parse(write(r))) must be a fixed point preserving every field; pointer access must equal a linear scan by an own parser; an edited '
+    'indexed file must be rejected.', TB, 'DESIGN.md section 6 C13')
+reg('C20', 'exploration', 'runtime monitor: invariant oracle (permutation, fixed positions, header, order) + paired executions (same seed, permuted input)',
+    'decoyFasta is executed on generated target sets over the option grid; each decoy is checked against an own implementation of reversal around fixed '
+    'positions and the permutation/fixed-position invariants; paired runs check reproducibility and order independence.', TB, 'DESIGN.md section 6 C20')
+
 NOT_YET = 'check not built yet in this session (runtime-monitoring design exists in DESIGN.md section 6); will be claimed when its monitor is committed'
 
 
